@@ -50,6 +50,9 @@ pub fn lines() -> Vec<Vec<u8>> {
     add("X-Empty:");
     add(":novalue-name");
     add("no colon here");
+    add(" ");
+    add("\t");
+    add("\u{a0}\u{3000}");
     add("Content-Length 5");
     add("\u{e9}t\u{e9}: \u{4e16}");
     v.push(b"X-Bad: \xff\xfe".to_vec());
